@@ -77,6 +77,50 @@ def gen_case(rng, bf=None, boundary=False):
             'dtype': rng.choice(['uint8', 'int16', 'float32', 'float64'])}
 
 
+def fmt_box(bf, x1, y1, z1, x2, y2, z2, W, H, D):
+    if bf == 'pascal_voc_3d':
+        return (x1, y1, z1, x2, y2, z2)
+    if bf == 'coco_3d':
+        return (x1, y1, z1, x2 - x1, y2 - y1, z2 - z1)
+    if bf == 'yolo_3d':
+        return ((x1 + x2) / 2 / W, (y1 + y2) / 2 / H, (z1 + z2) / 2 / D, (x2 - x1) / W, (y2 - y1) / H, (z2 - z1) / D)
+    return (x1 / W, y1 / H, z1 / D, x2 / W, y2 / H, z2 / D)
+
+
+THRESHOLDS = ['min_width', 'min_height', 'min_depth', 'min_planar_area', 'min_volume', 'min_area_visibility',
+              'min_volume_visibility']
+
+
+def threshold_case(rng, bf, thr):
+    """boxes that all MEET the one configured threshold `thr` (so a non-firing pipeline must return them all) but
+    would fail it if it were compared with another axis / another quantity: long along the threshold's own axis,
+    short (down to sub-voxel) along the other two; for the area / volume thresholds a sub-voxel depth makes the
+    volume smaller than the planar area and a depth above one voxel larger."""
+    long_axis = {'min_width': 0, 'min_height': 1, 'min_depth': 2}.get(thr, rng.randrange(3))
+    dims = [rng.choice([5, 6, 7, 9]) for _ in range(3)]     # W, H, D
+    dims[long_axis] = rng.choice([20, 24, 31])
+    W, H, D = dims
+    boxes, ext = [], []
+    for i in range(rng.randint(2, 3)):
+        e = [rng.uniform(0.5, 3.0) for _ in range(3)]
+        e[long_axis] = rng.uniform(10.0, 18.0)
+        if thr in ('min_planar_area', 'min_volume'):
+            e[2] = rng.choice([rng.uniform(0.3, 0.8), rng.uniform(1.5, 4.0)])
+        lo = [rng.uniform(0, n - x) for n, x in zip(dims, e)]
+        boxes.append(tuple(fmt_box(bf, lo[0], lo[1], lo[2], lo[0] + e[0], lo[1] + e[1], lo[2] + e[2], W, H, D)) + ('b%d' % i,))
+        ext.append(e)
+    if thr in ('min_width', 'min_height', 'min_depth'):
+        val = min(e[long_axis] for e in ext) - 0.5
+    elif thr == 'min_planar_area':
+        val = 0.9 * min(e[0] * e[1] for e in ext)
+    elif thr == 'min_volume':
+        val = 0.9 * min(e[0] * e[1] * e[2] for e in ext)
+    else:
+        val = 0.99
+    return {'shape': [H, W, D], 'bbox_format': bf, 'kp_format': 'xyz', 'degrees': False, 'bboxes': boxes,
+            'keypoints': [], 'channels': None, 'dtype': 'uint8', 'bbox_kw': {thr: val}}
+
+
 def run_case(name, specs, ckw, case):
     shape = tuple(case['shape']) + ((case['channels'],) if case['channels'] else ())
     rs = np.random.RandomState(1)
@@ -84,7 +128,7 @@ def run_case(name, specs, ckw, case):
     mask = rs.randint(0, 5, tuple(case['shape'])).astype('int32')
     dicom = {'PixelSpacing': (0.7, 0.4), 'RescaleIntercept': -1024.0, 'RescaleSlope': 1.0,
              'ConvolutionKernel': 'STANDARD', 'XRayTubeCurrent': 160}
-    pipe = R.build(specs, bbox_format=case['bbox_format'], kp_format=case['kp_format'],
+    pipe = R.build(specs, bbox_format=case['bbox_format'], kp_format=case['kp_format'], bbox_kw=case.get('bbox_kw'),
                    kp_kw={'angle_in_degrees': case['degrees']}, compose_kw=ckw)
     res = pipe(image=img.copy(), mask=mask.copy(), bboxes=[tuple(b) for b in case['bboxes']],
                keypoints=[tuple(k) for k in case['keypoints']], dicom=copy.deepcopy(dicom))
@@ -138,8 +182,19 @@ def run(seed=0, tier='quick', hints=None, broken=False):
                 check_one(name + '-boundary-boxes', specs, ckw, case, viol)
                 evals += 1
             seen.add(('boundary', bf, tuple(case['shape'])))
+    # every BboxParams threshold, one at a time, at a value ALL the boxes meet (nothing fires, so nothing may be
+    # dropped either): each threshold must be compared with its own quantity
+    for rep in range(1 if tier == 'quick' else 10):
+        for bf in BOX_FORMATS:
+            for thr in THRESHOLDS:
+                case = threshold_case(rng, bf, thr)
+                pipes = nofire_pipelines(rng)
+                for name, specs, ckw in [pipes[0], pipes[2 + (evals % 2)]]:
+                    check_one(name + '-threshold-' + thr, specs, ckw, case, viol)
+                    evals += 1
+                seen.add(('threshold', bf, thr))
     return {'violations': viol, 'info': {'evaluations': evals, 'distinct': len(seen),
-                                         'what': 'non-firing pipelines x annotation formats x angle units x non-cubic frames'}}
+                                         'what': 'non-firing pipelines x annotation formats x angle units x non-cubic frames; every BboxParams threshold x box format at a value all boxes meet'}}
 
 
 def replay(v):
